@@ -1,16 +1,17 @@
 #!/usr/bin/python3
-"""eval_refac.py <ID> [variants…] : behaviour-preserving refactorings produced by sub-agents (/tmp/refac-out/<ID>/r*.patch) must leave EVERY
-check silent.  Each patch is applied to a scratch copy of /repo's current tree (mktemp, removed afterwards) and all 20 quick checks run on the
+"""eval_refac.py <ID> [variants…] : behaviour-preserving refactorings produced by sub-agents (stored under /verif/refactorings/<ID>/r*.patch;
+REFAC_DIR overrides the directory) must leave EVERY check silent.  Each patch is applied to a scratch copy of /repo's current tree (mktemp, removed afterwards) and all 20 quick checks run on the
 copy (./check Cxx --repo DIR).  Prints the properties whose check did not exit 0, with the first keys / error."""
 import glob, os, shutil, subprocess, sys, tempfile
 from concurrent.futures import ThreadPoolExecutor
 pid = sys.argv[1]
-vs = sys.argv[2:] or sorted(os.path.basename(p)[:-6] for p in glob.glob("/tmp/refac-out/%s/r*.patch" % pid))
+RD = os.environ.get("REFAC_DIR", "/verif/refactorings")
+vs = sys.argv[2:] or sorted(os.path.basename(p)[:-6] for p in glob.glob("%s/%s/r*.patch" % (RD, pid)))
 PROPS = ["C%02d" % i for i in range(1, 21)]
 
 
 def one(v):
-    patch = "/tmp/refac-out/%s/%s.patch" % (pid, v)
+    patch = "%s/%s/%s.patch" % (RD, pid, v)
     d = tempfile.mkdtemp(prefix="flan-refac-")
     out = []
     try:
